@@ -1116,3 +1116,16 @@ Proof. now vm_compute. Qed.
 Example ex_beam : make_sentence (Some (fun ctx w _ => match ctx, w with [], [67%N] => 0%Z | _, _ => (-10)%Z end)) 0%Z
                                 compare_weight [] ex_wg_tie 3 = Some [(eC, 2); (eD', 3)].
 Proof. now vm_compute. Qed.
+
+(** ** the tie-break, exactly: the update happens only on a STRICT improvement, so a line that compares "not less" -
+    equal weight under CompareWeight; equal weight, word count and word lengths under LeftAssociateCompare - never
+    replaces the stored one; the stored one is the first such line in processing order (start positions ascending,
+    end positions in map order, entries in list order) *)
+Lemma better_keeps_first cmp best nl : best <> [] -> cmp best nl = false -> better cmp best nl = best.
+Proof. intros N H. unfold better. destruct best; [congruence|]. cbn [l_empty orb]. now rewrite H. Qed.
+
+Lemma better_takes_strictly_better cmp best nl : cmp best nl = true -> better cmp best nl = nl.
+Proof. intros H. unfold better. rewrite H. now rewrite orb_true_r. Qed.
+
+Lemma compare_weight_tie a b : compare_weight a b = false /\ compare_weight b a = false <-> l_weight a = l_weight b.
+Proof. unfold compare_weight. rewrite !Z.ltb_ge. lia. Qed.
